@@ -135,7 +135,7 @@ func facts(f *hc.Facts) {
 	f.Nat("schemaCtorsWithID", withID, "... that have a XxxTypeID constant")
 	f.Nat("schemaIfaces", len(s.Ifaces), "generated DecodeXxx functions (interfaces)")
 	f.Nat("untranslated", nBad, "constructors whose generated code the translator did not understand / found inconsistent: "+strings.Join(badNames, "; "))
-	f.Nat("genericCtors", nGeneric, "constructors with a bin.Object field (not modelled)")
+	f.Nat("genericCtors", nGeneric, "constructors with a generic bin.Object field")
 	f.Nat("genericUnchecked", unchecked, "bin.Object fields that Encode/Decode dereference without a nil check")
 	f.Nat("doubleVectors", s.DoubleVectors, "fields decoded by the generator's double-vector loop")
 	f.Nat("vectorMakes", makes, "make( calls in DecodeBare bodies")
@@ -335,7 +335,8 @@ func run(c *hc.Ctx) error {
 				continue
 			}
 			sx := w.showObj(ct, obj) // after Encode: SetFlags has run
-			in := fmt.Sprintf("dec C%d %s", ct.Idx, hc.Hex(data))
+			gtag := w.genericTag(ct, obj)
+			in := fmt.Sprintf("dec C%d%s %s", ct.Idx, gtag, hc.Hex(data))
 			c.Count("pkg." + ct.Pkg)
 			c.Count(fmt.Sprintf("value.bytes<%d", bucket(len(data))))
 			c.Eval(in, len(ct.Fields) > 0)
@@ -362,22 +363,23 @@ func run(c *hc.Ctx) error {
 				}
 			}
 			if ct.Generic {
-				c.Count("generic(not modelled)")
-				continue
+				c.Count("generic")
 			}
 			q = append(q, pending{in, name + " " + in, "ok " + sx + " 0 same"})
 			// SetFlags + Encode of the model on the value as built must give the same bytes
 			if len(pre.String()) < 1<<20 {
-				el := fmt.Sprintf("enc C%d %s", ct.Idx, pre.String())
+				el := fmt.Sprintf("enc C%d%s %s", ct.Idx, gtag, pre.String())
 				q = append(q, pending{el, name + " " + el, hc.Hex(data)})
 			}
 		}
 		// --- arbitrary / mutated bytes
 		var base []byte
+		var baseObj bin.Object
 		{
 			g := &gen{w: w, r: r, budget: 60, maxD: 2}
 			obj := w.newObj[ct.Idx]()
 			g.fillCtor(ct, reflect.ValueOf(obj).Elem(), 0)
+			baseObj = obj
 			base, _, _ = encodeSafe(obj)
 			if len(base) < 4 {
 				base = []byte{byte(ct.ID), byte(ct.ID >> 8), byte(ct.ID >> 16), byte(ct.ID >> 24)}
@@ -386,8 +388,13 @@ func run(c *hc.Ctx) error {
 		for j := 0; j < junkPer; j++ {
 			data := mutate(r, base)
 			name := ct.Pkg + "." + ct.GoName
-			in := fmt.Sprintf("dec C%d %s", ct.Idx, hc.Hex(data))
 			obj := w.newObj[ct.Idx]()
+			gtag := ""
+			if ct.Generic && r.Chance(70) { // otherwise the generic field stays nil: an error, not a panic
+				presetGeneric(ct, baseObj, obj)
+				gtag = w.genericTag(ct, obj)
+			}
+			in := fmt.Sprintf("dec C%d%s %s", ct.Idx, gtag, hc.Hex(data))
 			rest, derr, p := decodeSafe(obj, data)
 			c.Eval(in, true)
 			if waste := maxSliceWaste(reflect.ValueOf(obj), 0); waste > 1024 {
@@ -417,9 +424,6 @@ func run(c *hc.Ctx) error {
 				}
 				want = fmt.Sprintf("ok %s %d %s", w.showObj(ct, obj), rest, re)
 				c.Count("junk.ok." + strings.SplitN(re, ":", 2)[0])
-			}
-			if ct.Generic {
-				continue
 			}
 			q = append(q, pending{in, name + " " + in, want})
 		}
@@ -502,7 +506,7 @@ func run(c *hc.Ctx) error {
 					presetGeneric(ct, obj, back)
 				}
 				rest, derr, p := decodeSafe(back, in)
-				line := fmt.Sprintf("dec C%d %s", ct.Idx, hc.Hex(in))
+				line := fmt.Sprintf("dec C%d%s %s", ct.Idx, w.genericTag(ct, obj), hc.Hex(in))
 				c.Eval(line, true)
 				c.Count("tail.cut")
 				want := ""
@@ -512,7 +516,7 @@ func run(c *hc.Ctx) error {
 				case derr != nil:
 					want = "err " + errClass(derr)
 				default:
-					if cut < n && rest == 0 && !ct.Generic {
+					if cut < n && rest == 0 {
 						// a strict prefix decoded completely: only possible when the cut removed nothing the
 						// decoder reads (never the case for canonical encodings)
 						c.Count("tail.prefix-decoded")
@@ -526,7 +530,7 @@ func run(c *hc.Ctx) error {
 					}
 					want = fmt.Sprintf("ok %s %d %s", w.showObj(ct, back), rest, re)
 				}
-				if want != "" && !ct.Generic {
+				if want != "" {
 					q = append(q, pending{line, name + " " + line, want})
 				}
 				// interface decoder
@@ -558,7 +562,7 @@ func run(c *hc.Ctx) error {
 					}
 					want = fmt.Sprintf("ok %s %d %s", w.showObj(gc, got), rest2, re)
 				}
-				if !ct.Generic && (cut >= n-4 || r.Chance(25)) {
+				if !ct.Generic && (cut >= n-4 || r.Chance(25)) { // DecodeXxx creates the object itself: its generic field is nil
 					c.Eval(iline, true)
 					q = append(q, pending{iline, ifc.Pkg + ".Decode" + ifc.Func + " " + iline, want})
 				}
